@@ -13,6 +13,35 @@ thread_local! {
     static PEAK: Cell<usize> = const { Cell::new(0) };
     static MAXREQ: Cell<usize> = const { Cell::new(0) };
     static SHARD: Cell<usize> = const { Cell::new(usize::MAX) };
+    /// 0 = off; otherwise every fresh allocation (and the grown part of a reallocation) on this thread is filled with
+    /// this byte, so that memory handed out uninitialised has a content the harness chose
+    static POISON: Cell<u8> = const { Cell::new(0) };
+}
+
+#[inline]
+fn poison(ptr: *mut u8, from: usize, to: usize) {
+    if ptr.is_null() || to <= from {
+        return;
+    }
+    let _ = POISON.try_with(|p| {
+        let b = p.get();
+        if b != 0 {
+            unsafe { std::ptr::write_bytes(ptr.add(from), b, to - from) };
+        }
+    });
+}
+
+/// runs `f` with fresh heap memory on this thread pre-filled with `byte`
+pub fn with_poison<R>(byte: u8, f: impl FnOnce() -> R) -> R {
+    struct Off;
+    impl Drop for Off {
+        fn drop(&mut self) {
+            POISON.with(|p| p.set(0));
+        }
+    }
+    POISON.with(|p| p.set(byte));
+    let _g = Off;
+    f()
 }
 
 pub const HARD_CAP: usize = 3 << 30;
@@ -117,7 +146,9 @@ pub fn set_shard(shard: usize) {
 unsafe impl GlobalAlloc for Tracking {
     unsafe fn alloc(&self, layout: Layout) -> *mut u8 {
         note(layout.size());
-        System.alloc(layout)
+        let p = System.alloc(layout);
+        poison(p, 0, layout.size());
+        p
     }
     unsafe fn alloc_zeroed(&self, layout: Layout) -> *mut u8 {
         note(layout.size());
@@ -130,7 +161,9 @@ unsafe impl GlobalAlloc for Tracking {
     unsafe fn realloc(&self, ptr: *mut u8, layout: Layout, new_size: usize) -> *mut u8 {
         unnote(layout.size());
         note(new_size);
-        System.realloc(ptr, layout, new_size)
+        let p = System.realloc(ptr, layout, new_size);
+        poison(p, layout.size(), new_size);
+        p
     }
 }
 
